@@ -57,6 +57,14 @@ CHECKS = {
               "by loop contract (fetches commands[pc], stops at the fault, error starts with 'At line <pc>'). Termination/step bound not claimed."),
         technique="contract-based deductive verification: function-against-spec-function per instruction handler on symbolic executor states (z3 arrays + LIA + quantified invariant), loop contract for the fetch loop",
         design_ref="5.C04"),
+    "C13": dict(
+        category="proof",
+        text=("Representation invariant (no two mapped virtual qubits share a physical qubit, in-use set == mapped set, registration tables and the shared-"
+              "memory manager agree) proved inductive: qalloc/qfree and keep-response delivery from an arbitrary symbolic state (unit modules of symbolic size), "
+              "stop_application + re-registration and init_new_application on unit modules of size 0..4 with symbolic contents, subroutine ids never reused while "
+              "live. Classical isolation is C04's frame clause."),
+        technique="contract-based deductive verification: inductive representation invariant per public operation on symbolic executor states, z3 (arrays, LIA, quantifiers)",
+        design_ref="5.C13"),
     "C19": dict(
         category="proof",
         text=("Loop-invariant proof of get_angle_spec_from_float over the reals for every angle and every tolerance in [1e-9, 1]: the real loop "
